@@ -37,10 +37,10 @@ theorem tie_dataHdrLen :
     (∀ r : FRec, r.len = dataHdrLen + (if r.body.plen = 0 then 8 else r.body.plen)) :=
   ⟨by decide, by decide, fun _ => rfl⟩
 
-/-- `_metadata_size` = 4 = length of the magic "FS21"; status letters as used by the model -/
+/-- `_metadata_size` = 4 = length of the magic "FS30"; status letters as used by the model -/
 theorem tie_metadata_status :
     agrees Generated.metadataSize metadataSize = true ∧ magic.length = metadataSize ∧
-    magic = "FS21".toList.map Char.toNat ∧
+    magic = "FS30".toList.map Char.toNat ∧
     stCheckpoint = 'c'.toNat ∧ stUndone = 'u'.toNat ∧ stNormal = ' '.toNat ∧ stPacked = 'p'.toNat :=
   ⟨by decide, by decide, by decide, by decide, by decide, by decide, by decide⟩
 
